@@ -310,6 +310,13 @@ def _judge_temporal(fx, exp, res):
     return None
 
 
+def _tkey(cls, arg):
+    """Exceptions and hangs depend on the type of the argument; value errors are classified by the instant that fails."""
+    if cls in ("raises", "does-not-return", "malformed-result"):
+        return "%s/argument-is-a-%s" % (cls, arg["kind"])
+    return cls
+
+
 def check_temporal(variant, pts, times, arg, ctx):
     """One track, one temporal sampling argument, every call path."""
     pts = [tuple(p) for p in pts]
@@ -355,11 +362,11 @@ def check_temporal(variant, pts, times, arg, ctx):
     classes = set(f[0] for f in fails.values())
     if len(fails) == len(paths) and len(classes) == 1:     # the same failure on every path: the shared core
         cls, det = fails[paths[0]]
-        ctx.violation("resample-temporal/%s/%s" % (arg["kind"], cls), case, {"paths": paths, "detail": det})
+        ctx.violation("resample-temporal/%s" % _tkey(cls, arg), case, {"paths": paths, "detail": det})
     else:
         for p in paths:
             if p in fails:
-                ctx.violation("resample-temporal/%s/%s/only-through-%s" % (arg["kind"], fails[p][0], p), case,
+                ctx.violation("resample-temporal/%s/only-through-%s" % (_tkey(fails[p][0], arg), p), case,
                               {"paths": [p], "detail": fails[p][1]})
 
 
